@@ -9,42 +9,56 @@ pub mod ty {
     pub open spec fn same_f64(a: f64, b: f64) -> bool { a == b }
 
 //@struct file=src/poly.rs name=Knot
+    #[derive(Clone, Copy)]
     pub struct Knot {
         pub x: f64,
         pub y: f64,
     }
 //@struct file=src/poly.rs name=Poly0
+    #[derive(Clone, Copy)]
     pub struct Poly0(pub f64);
 //@struct file=src/poly.rs name=Poly1
+    #[derive(Clone, Copy)]
     pub struct Poly1(pub [f64; 2]);
 //@struct file=src/poly.rs name=Poly2
+    #[derive(Clone, Copy)]
     pub struct Poly2(pub [f64; 3]);
 //@struct file=src/poly.rs name=Poly3
+    #[derive(Clone, Copy)]
     pub struct Poly3(pub [f64; 4]);
 //@struct file=src/poly.rs name=Poly4
+    #[derive(Clone, Copy)]
     pub struct Poly4(pub [f64; 5]);
 //@struct file=src/poly.rs name=Poly5
+    #[derive(Clone, Copy)]
     pub struct Poly5(pub [f64; 6]);
 //@struct file=src/poly.rs name=Poly6
+    #[derive(Clone, Copy)]
     pub struct Poly6(pub [f64; 7]);
 //@struct file=src/poly.rs name=Poly7
+    #[derive(Clone, Copy)]
     pub struct Poly7(pub [f64; 8]);
 //@struct file=src/poly.rs name=Poly8
+    #[derive(Clone, Copy)]
     pub struct Poly8(pub [f64; 9]);
 //@struct file=src/log_poly.rs name=Log
+    #[derive(Clone, Copy)]
     pub struct Log<T>(pub T);
 //@struct file=src/log_poly.rs name=IntOfLog
+    #[derive(Clone, Copy)]
     pub struct IntOfLog<T> {
         pub k: f64,
         pub poly: T,
     }
 //@struct file=src/log_poly.rs name=IntOfLogPoly4
+    #[derive(Clone, Copy)]
     pub struct IntOfLogPoly4 {
         pub k: f64,
         pub coeffs: [f64; 4],
         pub u: f64,
     }
 //@struct file=src/piecewise.rs name=Segment
+    #[derive(Clone, Copy)]
     pub struct Segment<T> {
         pub end: f64,
         pub poly: T,
